@@ -22,24 +22,7 @@ theorem ne_suffix (x : String) (a : Nat) : x ≠ x ++ "-" ++ toString a := by
   simp only [String.length_append, h1] at this
   omega
 
-/-- suffixing of a name repeated `R` times (what `simulate_pt` appends for `R` replications) -/
-theorem uniqFrom_replicate (x : String) : ∀ (R k : Nat), 0 < k →
-    uniqFrom (List.replicate k x) (List.replicate R x) =
-      (List.range R).map (fun i => x ++ "-" ++ toString (k + i))
-  | 0, _, _ => by simp [uniqFrom]
-  | R+1, k, hk => by
-    have ih := uniqFrom_replicate x R (k+1) (by omega)
-    simp only [List.replicate_succ, uniqFrom, List.count_replicate_self]
-    have hk0 : ¬ k = 0 := by omega
-    simp only [hk0, ↓reduceIte]
-    rw [show x :: List.replicate k x = List.replicate (k+1) x from rfl, ih, List.range_succ_eq_map]
-    simp only [List.map_cons, List.map_map, Nat.add_zero, List.cons.injEq, true_and]
-    apply List.map_congr_left
-    intro i _
-    simp only [Function.comp]
-    rw [show k + 1 + i = k + (i + 1) by omega]
-
-theorem nodup_map_of_injOn {α β} (f : α → β) : ∀ (l : List α), l.Nodup →
+theorem nodup_map_of_injOn' {α β} (f : α → β) : ∀ (l : List α), l.Nodup →
     (∀ a ∈ l, ∀ b ∈ l, f a = f b → a = b) → (l.map f).Nodup
   | [], _, _ => List.nodup_nil
   | a :: t, hnd, hinj => by
@@ -51,21 +34,144 @@ theorem nodup_map_of_injOn {α β} (f : α → β) : ∀ (l : List α), l.Nodup 
       obtain ⟨b, hb, hfb⟩ := List.mem_map.mp hm
       have := hinj b (List.mem_cons_of_mem _ hb) a (List.mem_cons_self ..) hfb
       subst this; exact h'.1 hb
-    · exact nodup_map_of_injOn f t h'.2 (fun x hx y hy => hinj x (List.mem_cons_of_mem _ hx) y (List.mem_cons_of_mem _ hy))
+    · exact nodup_map_of_injOn' f t h'.2 (fun x hx y hy => hinj x (List.mem_cons_of_mem _ hx) y (List.mem_cons_of_mem _ hy))
 
-/-- C09: `R` replications of one trait get `R` pairwise distinct column names `x, x-1, …, x-(R-1)` -/
-theorem replication_names_distinct (x : String) (R : Nat) : (uniqNames (List.replicate R x)).Nodup := by
-  cases R with
-  | zero => simp [uniqNames, uniqFrom]
-  | succ R =>
-    unfold uniqNames
-    simp only [List.replicate_succ, uniqFrom, List.count_nil, ↓reduceIte]
-    rw [show [x] = List.replicate 1 x from rfl, uniqFrom_replicate x R 1 (by omega)]
-    apply List.nodup_cons.mpr
-    constructor
-    · intro hmem
-      obtain ⟨i, _, hi⟩ := List.mem_map.mp hmem
-      exact ne_suffix x (1 + i) hi.symm
-    · apply nodup_map_of_injOn _ _ List.nodup_range
-      intro a _ b _ hab; have := suffix_inj x _ _ hab; omega
-#print axioms replication_names_distinct
+/-! ### pigeonhole: among `|taken| + 1` consecutive suffixes one is free -/
+
+theorem nodup_subset_length : ∀ (l₁ l₂ : List String), l₁.Nodup → (∀ x ∈ l₁, x ∈ l₂) → l₁.length ≤ l₂.length
+  | [], _, _, _ => Nat.zero_le _
+  | a :: t, l₂, hnd, hsub => by
+    have h' := List.nodup_cons.mp hnd
+    have ha : a ∈ l₂ := hsub a List.mem_cons_self
+    have ih := nodup_subset_length t (l₂.erase a) h'.2 (fun x hx => by
+      have hx2 := hsub x (List.mem_cons_of_mem _ hx)
+      have hne : x ≠ a := fun e => h'.1 (e ▸ hx)
+      exact (List.mem_erase_of_ne hne).mpr hx2)
+    have := List.length_erase_of_mem ha
+    have hpos : 0 < l₂.length := List.length_pos_of_mem ha
+    simp only [List.length_cons]
+    omega
+
+theorem exists_free (taken : List String) (n : String) (k0 : Nat) :
+    ∃ d ∈ List.range (taken.length + 1), (n ++ "-" ++ toString (k0 + d)) ∉ taken := by
+  by_cases h : ∃ d ∈ List.range (taken.length + 1), (n ++ "-" ++ toString (k0 + d)) ∉ taken
+  · exact h
+  · exfalso
+    have hall : ∀ d ∈ List.range (taken.length + 1), (n ++ "-" ++ toString (k0 + d)) ∈ taken := by
+      intro d hd
+      by_cases hm : (n ++ "-" ++ toString (k0 + d)) ∈ taken
+      · exact hm
+      · exact absurd ⟨d, hd, hm⟩ h
+    have hnd : ((List.range (taken.length + 1)).map (fun d => n ++ "-" ++ toString (k0 + d))).Nodup := by
+      apply nodup_map_of_injOn' _ _ List.nodup_range
+      intro a _ b _ hab
+      have := suffix_inj n _ _ hab
+      omega
+    have := nodup_subset_length _ taken hnd (by
+      intro x hx
+      obtain ⟨d, hd, rfl⟩ := List.mem_map.mp hx
+      exact hall d hd)
+    simp only [List.length_map, List.length_range] at this
+    omega
+
+/-- the suffix the loop settles on is free -/
+theorem nextFree_fresh (taken : List String) (n : String) (k0 : Nat) :
+    (n ++ "-" ++ toString (nextFree taken n k0)) ∉ taken := by
+  unfold nextFree
+  split
+  · rename_i d hd
+    have := List.find?_some hd
+    simpa using this
+  · rename_i hnone
+    obtain ⟨d, hd, hfree⟩ := exists_free taken n k0
+    have := List.find?_eq_none.mp hnone d hd
+    simp at this
+    exact absurd this hfree
+
+/-! ### every written name is unique -/
+
+/-- the invariant of the loop: the names written so far are distinct, all of them are taken, and one that is a given
+    name has been counted (so a later first occurrence of a given name cannot already be among them) -/
+structure UInv (orig : List String) (c : List (String × Nat)) (taken out : List String) : Prop where
+  nodup : out.Nodup
+  taken_of_out : ∀ o ∈ out, o ∈ taken
+  counted : ∀ o ∈ out, o ∈ orig → cnt c o ≠ 0
+  orig_taken : ∀ o ∈ orig, o ∈ taken
+
+theorem cnt_cons_self (c : List (String × Nat)) (n : String) (k : Nat) : cnt ((n, k) :: c) n = k := by
+  simp [cnt, List.lookup]
+
+theorem cnt_cons_ne (c : List (String × Nat)) (n m : String) (k : Nat) (h : m ≠ n) : cnt ((n, k) :: c) m = cnt c m := by
+  have : (m == n) = false := by simpa using h
+  simp [cnt, List.lookup, this]
+
+theorem uniqGo_inv (orig : List String) : ∀ (rest : List String) (c : List (String × Nat)) (taken pre : List String),
+    UInv orig c taken pre.reverse → (∀ n ∈ rest, n ∈ orig) → (pre.reverse ++ uniqGo c taken rest).Nodup
+  | [], c, taken, pre, hinv, _ => by simpa [uniqGo] using hinv.nodup
+  | n :: rest, c, taken, pre, hinv, horig => by
+    have hn : n ∈ orig := horig n List.mem_cons_self
+    unfold uniqGo
+    split
+    · rename_i h0
+      -- first occurrence: the name itself
+      have hnot : n ∉ pre.reverse := fun hm => hinv.counted n hm hn h0
+      have hinv' : UInv orig ((n, 1) :: c) taken (n :: pre).reverse := by
+        refine ⟨?_, ?_, ?_, hinv.orig_taken⟩
+        · simp only [List.reverse_cons]
+          exact List.nodup_append.mpr ⟨hinv.nodup, by simp, by
+            intro a ha b hb; simp only [List.mem_singleton] at hb; subst hb; exact fun e => hnot (e ▸ ha)⟩
+        · intro o ho
+          simp only [List.reverse_cons, List.mem_append, List.mem_singleton] at ho
+          rcases ho with ho | rfl
+          · exact hinv.taken_of_out o ho
+          · exact hinv.orig_taken _ hn
+        · intro o ho hoo
+          simp only [List.reverse_cons, List.mem_append, List.mem_singleton] at ho
+          by_cases hon : o = n
+          · subst hon; rw [cnt_cons_self]; omega
+          · rw [cnt_cons_ne _ _ _ _ hon]
+            rcases ho with ho | ho
+            · exact hinv.counted o ho hoo
+            · exact absurd ho hon
+      have := uniqGo_inv orig rest ((n, 1) :: c) taken (n :: pre) hinv' (fun x hx => horig x (List.mem_cons_of_mem _ hx))
+      simpa [List.reverse_cons, List.append_assoc] using this
+    · rename_i h0
+      -- a repeated name: the least free suffixed form
+      have hfresh := nextFree_fresh taken n (cnt c n)
+      have hnot : (n ++ "-" ++ toString (nextFree taken n (cnt c n))) ∉ pre.reverse :=
+        fun hm => hfresh (hinv.taken_of_out _ hm)
+      have hinv' : UInv orig ((n, nextFree taken n (cnt c n) + 1) :: c)
+          ((n ++ "-" ++ toString (nextFree taken n (cnt c n))) :: taken)
+          ((n ++ "-" ++ toString (nextFree taken n (cnt c n))) :: pre).reverse := by
+        refine ⟨?_, ?_, ?_, fun o ho => List.mem_cons_of_mem _ (hinv.orig_taken o ho)⟩
+        · simp only [List.reverse_cons]
+          exact List.nodup_append.mpr ⟨hinv.nodup, by simp, by
+            intro a ha b hb; simp only [List.mem_singleton] at hb; subst hb; exact fun e => hnot (e ▸ ha)⟩
+        · intro o ho
+          simp only [List.reverse_cons, List.mem_append, List.mem_singleton] at ho
+          rcases ho with ho | rfl
+          · exact List.mem_cons_of_mem _ (hinv.taken_of_out o ho)
+          · exact List.mem_cons_self
+        · intro o ho hoo
+          simp only [List.reverse_cons, List.mem_append, List.mem_singleton] at ho
+          by_cases hon : o = n
+          · subst hon; rw [cnt_cons_self]; omega
+          · rw [cnt_cons_ne _ _ _ _ hon]
+            rcases ho with ho | ho
+            · exact hinv.counted o ho hoo
+            · -- the fresh form is not a given name (given names are taken)
+              exact absurd (hinv.orig_taken o hoo) (ho ▸ hfresh)
+      have := uniqGo_inv orig rest _ _ (_ :: pre) hinv' (fun x hx => horig x (List.mem_cons_of_mem _ hx))
+      simpa [List.reverse_cons, List.append_assoc] using this
+
+/-- **every list of column names is written with pairwise distinct names** (after fix F27) – whatever repeats it holds
+    and whether or not suffixed forms such as `a-1` are names in their own right -/
+theorem uniqNames_nodup (names : List String) : (uniqNames names).Nodup := by
+  have := uniqGo_inv names names [] names []
+    ⟨List.nodup_nil, by simp, by simp, fun o ho => ho⟩ (fun n hn => hn)
+  simpa [uniqNames] using this
+
+/-- C09: `R` replications of one trait get `R` pairwise distinct column names -/
+theorem replication_names_distinct (x : String) (R : Nat) : (uniqNames (List.replicate R x)).Nodup :=
+  uniqNames_nodup _
+#print axioms uniqNames_nodup
